@@ -242,6 +242,57 @@ def check_recv_loop(ctx, rule, rel, qual, fn, exc_ok):
                   'returns the buffer only when count == requested; otherwise raises', 'returns %s without count == requested (short stream not reported)' % short(s))
 
 
+def fold_build_protocol_version(ctx, xc, bpv, members):
+    """({KMIPVersion member: (major, minor)}, stale) by folding _build_protocol_version on a model client: every instance field
+    starts with the constant __init__ gives it, kmip_version is set to the member.  `stale` lists (first, second, announced) when,
+    after a call under `first`, a call under `second` on the SAME client still yields another version (a cache that does not
+    follow kmip_version).  None when the method cannot be folded."""
+    from ..fold import Folder, Version, Enum, Opaque, Unfoldable, Raised
+    init = get_method(xc, '__init__', optional=True)
+    fields = {}
+    if init is not None:
+        for n in walk_local(init):
+            if isinstance(n, ast.Assign) and len(n.targets) == 1 and is_self_attr(n.targets[0]) and isinstance(n.value, ast.Constant):
+                fields[n.targets[0].attr] = n.value.value
+    from ..inline import flat_methods
+    meths = flat_methods(xc)[0]
+
+    def model_self(member):
+        d = dict(fields)
+        d['kmip_version'] = Enum('KMIPVersion', member)
+        d['_kmip_version'] = Enum('KMIPVersion', member)
+        d['__attrs__'] = tuple(k for k in d)
+        return d
+
+    def call(selfv):
+        f = Folder(models={'ProtocolVersion': Version, 'contents.ProtocolVersion': Version}, methods=meths, steps=20000)
+        r = f.call_method(bpv, selfv, [], {})
+        if not isinstance(r, Version):
+            raise Unfoldable('returns %r' % (r,))
+        return (r.major, r.minor)
+    try:
+        build = {}
+        for m_ in members:
+            build[m_] = call(model_self(m_))
+        stale = []
+        for m1 in members:
+            for m2 in members:
+                if m1 == m2:
+                    continue
+                sv = model_self(m1)
+                call(sv)
+                # the application changes the version (the public setter stores the member; other fields stay as the first call left them)
+                sv['kmip_version'] = Enum('KMIPVersion', m2)
+                sv['_kmip_version'] = Enum('KMIPVersion', m2)
+                got = call(sv)
+                if got != build[m2]:
+                    stale.append((m1, m2, 'ProtocolVersion%s' % (got,)))
+        return build, stale
+    except (Unfoldable, Raised) as ex:
+        ctx.note('C19.R4: _build_protocol_version is not foldable (%s); the if-chain reading is used' % ex)
+        return None
+
+
 def check_optional_batch_item_fields(ctx, t):
     """C19.R7: fields of a response batch item that a failure response may omit (operation, response payload, batch item id) are dereferenced
     only after the result status was found to be SUCCESS, or under a None test of that field."""
@@ -483,28 +534,40 @@ def run(ctx):
 
     # ---------------- R4 version mapping
     bpv = get_method(xc, '_build_protocol_version')
-    bg = CFG(bpv)
+    kv0 = enum_table(src, 'KMIPVersion')
+    folded_build = fold_build_protocol_version(ctx, xc, bpv, sorted(kv0))
     build = {}
-    from ..polmodel import fold_version
     default = None
-    for pn, lab in bg.exit.pred:
-        s = pn.stmt
-        if not isinstance(s, ast.Return):
-            raise AnalysisError('unrecognised construct: _build_protocol_version falls off')
-        from ..dataflow import resolve as _resolve
-        v = fold_version(_resolve(ReachingDefs(bg), pn, s.value)[0])
-        eqs = []
-        for t, l2 in dominating_edges(bg, pn):
-            p = cmp_parts(t.stmt)
-            m_ = enum_member(p[2], 'KMIPVersion') if p else None
-            if p and is_self_attr(p[0], 'kmip_version') and m_ and p[1] == 'Eq' and l2 == 'T':
-                eqs.append(m_[1])
-        if len(eqs) == 1:
-            build[eqs[0]] = v
-        elif not eqs:
-            default = v
-        else:
-            raise AnalysisError('unrecognised construct: guards of %s' % short(s))
+    if folded_build is not None:
+        build, stale = folded_build
+        bsite0 = '%s:%s KMIPProxy._build_protocol_version' % (PROXY, bpv.lineno)
+        ctx.check(not stale, 'C19.R4', 'KMIPProxy._build_protocol_version|follows-current-version', bsite0,
+                  'the version sent is computed from the client\'s current kmip_version on every call (36 ordered pairs of versions folded)',
+                  'the version sent does not follow kmip_version: after a request under %s a client switched to %s still announces %s' % (stale[0] if stale else ('', '', '')))
+    else:
+        bg = CFG(bpv)
+        build = {}
+        from ..polmodel import fold_version
+        default = None
+        for pn, lab in bg.exit.pred:
+            s = pn.stmt
+            if not isinstance(s, ast.Return):
+                raise AnalysisError('unrecognised construct: _build_protocol_version falls off')
+            from ..dataflow import resolve as _resolve
+            v = fold_version(_resolve(ReachingDefs(bg), pn, s.value)[0])
+            eqs = []
+            for t, l2 in dominating_edges(bg, pn):
+                p = cmp_parts(t.stmt)
+                m_ = enum_member(p[2], 'KMIPVersion') if p else None
+                if p and is_self_attr(p[0], 'kmip_version') and m_ and p[1] == 'Eq' and l2 == 'T':
+                    eqs.append(m_[1])
+            if len(eqs) == 1:
+                build[eqs[0]] = v
+            elif not eqs:
+                default = v
+            else:
+                raise AnalysisError('unrecognised construct: guards of %s' % short(s))
+
     kv = enum_table(src, 'KMIPVersion')
     for member in kv:
         build.setdefault(member, default)
